@@ -97,7 +97,26 @@ def stage_cases(ctx, st):
                        "case": d, "index": i, "gen_seed": sd, "gen_n": nn}, no_input=True)
 
 
-STAGES = {"cases": stage_cases}
+def stage_race(ctx, st):
+    """Unsteered stress of the public API under the Go race detector (supporting search for C14: data races,
+    panics, hangs). A report is a violation with the first report as replay."""
+    binp = ctx.binaries["verifr"]
+    dur = st["dur"][ctx.tier]
+    rc, out, dt = V.run([binp, "-seed", str(ctx.seed), "-dur", dur], cwd=V.WORK, env=V.GOENV, timeout=1200)
+    races = out.count("WARNING: DATA RACE")
+    ops = sum(int(x) for x in __import__("re").findall(r"ops=(\d+)", out))
+    ctx.add_cov(st["name"], max(ops, 1), 2 if ops > 1000 else 0,
+                [{"stress": "publish x3, subscribe/receive/disconnect/remove x4, list, close; both transports", "ops": ops, "duration_per_transport": dur}],
+                {"ops": ops, "data_races": races}, {"data_races": races, "exit": rc})
+    if races or rc != 0:
+        i = out.find("WARNING: DATA RACE")
+        what = "race detector: %d data race reports" % races if races else "stress run failed: " + " | ".join(l for l in out.splitlines() if l.startswith(("PANIC", "HANG")))
+        ctx.violation(what + " (stage %s)" % st["name"],
+                      {"kind": "schedule", "stage": st["name"], "report": out[i:i + 4000] if i >= 0 else out[-3000:],
+                       "how_to_replay": ".work/verifr -seed %d -dur %s (unsteered: the report is the witness)" % (ctx.seed, dur)})
+
+
+STAGES = {"cases": stage_cases, "race": stage_race}
 
 
 def main(argv):
